@@ -268,6 +268,19 @@ def rule_mem(ctx: Ctx) -> List[Ob]:
                 (dotted(s.value.func) or "").endswith("update_X_and_G"):
             t = s.targets[0] if isinstance(s, ast.Assign) else s.target
             acc = src(t)
+    if acc is None:
+        # the offer to the memory sits behind a short-circuit (flag or update_X_and_G(..)): when the left operand decides,
+        # the new point is never offered to the history although the matrices are rebuilt
+        sc = [(b, c) for b in walk_no_nested(ulm.node) if isinstance(b, ast.BoolOp)
+              for i, c in enumerate(b.values) if i > 0 and any(isinstance(x, ast.Call) and (dotted(x.func) or "").endswith("update_X_and_G")
+                                                                for x in ast.walk(c))]
+        if sc:
+            b, c = sc[0]
+            obs.append(ob("MEM", "every call of the memory update offers the new point to the history", ulm, b, False,
+                          f"`{short(b, 80)}`: update_X_and_G is the right operand of a short-circuit -- when `{short(b.values[0], 30)}` "
+                          "decides, the new point is not stored (the newest point is not retained) while the matrices are rebuilt",
+                          construct="offer to the history behind a short-circuit"))
+            return obs
     need(acc is not None, "update_lbfgs_matrices: result of update_X_and_G is not kept")
     gates = [n for n in cfg.nodes if n.kind == "test" and src(n.ast) in (acc, "is_force_update")]
     stores = [n for n in cfg.nodes if any(k.startswith("mats.") for k, _, _ in node_defs(n))]
